@@ -1403,6 +1403,21 @@ fn c13_specific_listener_counts_handshaking_children() {
 }
 }
 
+// @verif id=C13 tier=thorough role=backlog timeout=900 desc=listener=0.0.0.0:80,backlog=1,one-accept-ready-child
+crate::verif_proof! { unwind = 8;
+fn c13_wildcard_listener_counts_accept_ready_children() {
+    let created = backlog_step(true, 1, true);
+    kani::cover!(!created, "second SYN dropped: the accept queue fills the backlog");
+}
+}
+// @verif id=C13 tier=thorough role=backlog timeout=900 desc=listener=A:80,backlog=2,one-accept-ready-child
+crate::verif_proof! { unwind = 8;
+fn c13_specific_listener_admits_up_to_its_backlog() {
+    let created = backlog_step(false, 2, true);
+    kani::cover!(created, "second child admitted next to an accept-ready one");
+}
+}
+
 /// TCP demultiplexing with a listener and one handshaking connection on the same local address; the
 /// kind of inbound segment is concrete per instance, its sequence numbers symbolic.
 fn tcp_demux(kind: u8) {
